@@ -94,9 +94,11 @@ def crashMonStep (w : CrMon) (ws : List String) : CrMon × String :=
             let saved := if usePost then cs.savedPost else cs.savedPre
             let cs' : CrSess := { cs with pre := spec, post := spec, inflight := none, savedPre := saved, savedPost := saved,
                                           hiPre := (if usePost then cs.hiPost else cs.hiPre), hiPost := (if usePost then cs.hiPost else cs.hiPre),
-                                          resumed := (if cs.tainted ∧ !(k == "mid" && c == "write-header") then cs.resumed else some r.windowInner),   -- a tainted store stays attributed to the crash that tainted it (a torn index line dominates)
-                                          inHypPre := cs.inHyp, dead := cs.dead || (cs.kind == "filens" && mode == "power"),
-                                          tainted := cs.tainted || bad.any (· ≠ "counter_neither_before_nor_after") || (k == "mid" && c == "write-header") || (cs.kind == "filens" && mode == "power") }
+                                          resumed := (if cs.tainted then cs.resumed else some r.windowInner),   -- a tainted store stays attributed to the crash that tainted it
+                                          inHyp := (if usePost then cs.inHyp else (cs.inHypPre && decide (ms = values cs.pre.msgs))),   -- the hypothesis status of the state adopted
+                                          inHypPre := (if usePost then cs.inHyp else (cs.inHypPre && decide (ms = values cs.pre.msgs))),
+                                          dead := cs.dead || (cs.kind == "filens" && mode == "power"),
+                                          tainted := cs.tainted || bad.any (· ≠ "counter_neither_before_nor_after") || (cs.kind == "filens" && mode == "power") }
             (alSet w sid cs', verdict (withCtx r.window bad))
           | none => (w, "bad-op"))
         | _ => if got.ok then (w, "bad-op") else (w, "bad reopen_fails{phase=resume}"))
